@@ -46,7 +46,7 @@ ASSUMPTIONS = [
     'APIs that raise on some inputs must still not have modified the input',
 ]
 
-FNS = [kinds.node, kinds.node2, kinds.two, kinds.three, kinds.Base, kinds.Mid, kinds.target3,
+FNS = [kinds.node, kinds.node2, kinds.mutating_node, kinds.two, kinds.three, kinds.Base, kinds.Mid, kinds.target3,
        kinds.tagged_fn, kinds.DCTagged, kinds.DC]
 POS_FNS = [kinds.posnode, kinds.PosInit, sigs.g_ab_c_va]
 LEAVES = [0, 1, 2.5, 'a', 'long string ' * 12, None, True, (1, 2), ('x', (3, 4)), kinds.Color.RED,
